@@ -95,7 +95,7 @@ def correspond(ctx):
     flipped = {o["cls"] for o in g["flips"]}
     cases = pool_cases()
     observed = {}
-    seeds = [ctx.seed] if not ctx.thorough else [ctx.seed, ctx.seed + 101, ctx.seed + 202]
+    seeds = [ctx.seed] if not ctx.thorough else [ctx.seed + 101 * k for k in range(5)]
     # classes whose tie flipped come first and get every mode
     cases.sort(key=lambda c: (c.cls_name not in flipped, c.cls_name, c.config))
     t_start = time.time()
